@@ -7,6 +7,28 @@ V = os.path.dirname(os.path.dirname(os.path.abspath(__file__)))
 props = [json.loads(l) for l in open(os.path.join(V, "properties.jsonl"))]
 
 CLAIMED = {
+    "C08": dict(
+        technique="static analysis: syn syntax-tree rules (must-pass-through of validations, guard-variant agreement, traversal completeness, cycle-search seeding)",
+        text="Decides structural necessary conditions of C08 on /repo's current source: every validation sits unconditionally on every success path; each Error variant is built under the predicate the property names; "
+        "handle_error renders each located variant and exits 1; the checkers descend into every branch, through definitions and over all automaton states; the cycle search is seeded from every vertex. "
+        "It does not decide that every clean grammar is accepted.",
+        note="trusted: rustc's checks; tables/tree.toml allowed drops; syn's parse of the source",
+        design="5/C08",
+    ),
+    "C11": dict(
+        technique="static analysis: syn syntax-tree rules (lookup-order, dominance of the shell filter, field-flow provenance, per-shell arms)",
+        text="Decides on /repo's current source the order in which target-shell specialisation, plain definition and builtin are consulted (map roles resolved from the call sites), that a specialisation is recorded only for the target shell, "
+        "that the command text flows unchanged into the expression, and that specialisation reaches every reference. Does not decide what builtin command strings do in a real shell.",
+        note="trusted: rustc's checks; syn's parse; the accepted idioms for 'plain definition overrides builtin' listed in props/c11.py",
+        design="5/C11",
+    ),
+    "C15": dict(
+        technique="static analysis: syn syntax-tree rules (bookkeeping-site dominance, provenance of the warning sets, exit-free warning blocks)",
+        text="Decides on /repo's current source that the three warning sets are built the way C15 requires (initialised from all plain definitions, a name is removed at every reference before any exit, `used` set exactly where the specialisation is taken, "
+        "undefined names collected from the compiled expression) and that the warning blocks in main::aot print one line per entry, exempt only `_`, and have no exit edge. Does not decide value-level set equality.",
+        note="trusted: rustc's checks; syn's parse",
+        design="5/C15",
+    ),
     "C02": dict(
         technique="static analysis: syn syntax-tree rules (traversal completeness, rebuild-preserves, translation table, field-flow provenance, pass order)",
         text="Decides the shape-visible necessary conditions of C02 on /repo's current source (every pass descends into every child; rebuilt nodes keep their labels; "
